@@ -49,10 +49,11 @@ def range_run(maxlen):
         shutil.rmtree(d, ignore_errors=True)
 
 
-def key_run(maxsegs):
+def key_run(maxsegs, wide=False):
     d = vlib.scratch("key-")
     try:
-        consts = dict(Methods={"GET", "HEAD"}, Hosts={"h.example", "H.EXAMPLE", "other.example"},
+        consts = dict(Methods={"GET", "HEAD", "POST"} if wide else {"GET", "HEAD"},
+                      Hosts={"h.example", "H.EXAMPLE", "other.example", "Other.Example"} if wide else {"h.example", "H.EXAMPLE", "other.example"},
                       Segs={"a", "b", ".", "..", "", "a|b", "a%7Cb", "a%3Fb"}, LastSegs={"a", "b", "a|b", "a%7Cb", "a%3Fb"},
                       Queries={"NONE", "b", "c", "b|c", "x=1&y=2"}, MaxSegs=maxsegs,
                       CaseFile=os.path.join(d, "cases.ndjson"), ResultFile=os.path.join(d, "res.ndjson"))
